@@ -159,6 +159,7 @@ func VerifC17Lifecycle() {
 		lib.VerifYield() // members have handled their start-up and sleep
 	}
 	runs := 1
+	reasonChecked := false
 	stopAsked := false
 	var causes []error
 	for ev := 0; ev < h; ev++ {
@@ -230,14 +231,35 @@ func VerifC17Lifecycle() {
 			if app.state != int32(gen.ApplicationStateLoaded) {
 				continue
 			}
-			if fa.terms-termsBase == runs {
+			if fa.terms-termsBase == runs && !reasonChecked {
 				// previous run ended: check the reason it was given
 				c17CheckReason(fa.termArg, causes, stopAsked)
+				reasonChecked = true
 			}
 			members = nil
 			order = nil
 			causes = nil
 			stopAsked = false
+			if lib.VerifParam("refail", 1) == 1 {
+				// this start may fail as well (a member that cannot be started this time)
+				failAt = lib.VerifPick("refailAt", nm+1) - 1
+				if failAt >= 0 {
+					failKind = 1
+					termsBefore := fa.terms
+					err := n.ApplicationStart("app", opts)
+					lib.VerifYield()
+					lib.VerifAssert(err != nil, "start fails when a member cannot be started")
+					lib.VerifAssert(appProcs() == 0, "a failed start leaves no member running")
+					lib.VerifAssert(app.state == int32(gen.ApplicationStateLoaded), "a failed start leaves the application loaded")
+					lib.VerifAssert(fa.starts-startsBase == runs, "start callback does not run on a failed start")
+					// whether a failed start invokes the terminate callback is not specified
+					termsBase += fa.terms - termsBefore
+					failAt = -1
+					reasonChecked = true // the previous run's reason was checked above; this start never ran
+					lib.VerifReach("failed restart checked")
+					continue
+				}
+			}
 			err := n.ApplicationStart("app", opts)
 			lib.VerifAssert(err == nil, "a stopped application can be started again")
 			lib.VerifAssert(fa.startMode == mode, "a restart uses the mode of the application's spec")
@@ -245,11 +267,12 @@ func VerifC17Lifecycle() {
 				lib.VerifYield()
 			}
 			runs++
+			reasonChecked = false
 			lib.VerifAssert(fa.starts-startsBase == runs, "start callback runs once per start")
 			lib.VerifReach("restarted")
 		}
 	}
-	if fa.terms-termsBase == runs {
+	if fa.terms-termsBase == runs && !reasonChecked {
 		c17CheckReason(fa.termArg, causes, stopAsked)
 	}
 	lib.VerifAssert(fa.terms-termsBase <= runs, "terminate callback never runs more often than the application was started")
